@@ -447,10 +447,14 @@ func classify(c Case) class {
 
 // ---- generation ------------------------------------------------------------
 
+// longName: 240 bytes, a valid file name (NAME_MAX is 255) that leaves little room for a staging
+// suffix (seeded change C13-9: the name truncated to make room)
+var longName = strings.Repeat("n", 236) + ".dat"
+
 // names that look like something else: a directory named like a file, like another directory plus a
 // suffix, like the staging name of an AtomicCreate (<name>.<i>.tmp; seeded change C12-5)
 var dirPool = []string{"d", "e", "x.tmp", "ü", "dir-2", "a", "d2", "a.0.tmp"}
-var namePool = []string{"a", "b", "c", "x", "a.b", "a-b", "ü", "x.tmp", "a.tmp", "a.0.tmp", "x.12.tmp", ".h", "a b", "-r", "2a", "2"} // d + 2a and d2 + a concatenate to the same text (seeded change C12-9)
+var namePool = []string{"a", "b", "c", "x", "a.b", "a-b", "ü", "x.tmp", "a.tmp", "a.0.tmp", "x.12.tmp", ".h", "a b", "-r", "2a", "2", longName} // d + 2a and d2 + a concatenate to the same text (seeded change C12-9)
 
 // bigSizes straddles the page size and the 64 KiB / 128 KiB marks at which an implementation that
 // reads or writes in chunks would switch to a second chunk (seeded change C12-2).
